@@ -318,7 +318,7 @@ def verify_one(args):
                             if x["name"] == o.name:
                                 x["status"] = "refuted"
                                 x["detail"] = "grounded scope %d; path: %s" % (N, o.detail)
-                                x["model"] = _describe_model(g, model, g.entry_stack[0])
+                                x["model"] = _describe_model(g, model, o.pre or g.entry_stack[0])
                         del failed[o.name]
             for nm, r in failed.items():
                 for x in res:
